@@ -31,10 +31,14 @@ SeqsUpTo(n) == IF n = 0 THEN {<<>>} ELSE LET S == SeqsUpTo(n - 1) IN S \cup {App
 
 StrCases == SetToSeq(SeqsUpTo(MaxLen))
 ValCases == SetToSeq(Values)
+\* byte counts beyond 32 bits are given as a small count of a unit (the driver multiplies): up to 2^62
+ScaledNs == {1, 2, 3, 5, 1023, 1024, 1025, 2048, 4096, 1048575, 1048576, 4194304, 8388607}
+ScaledCases == SetToSeq({[n |-> n, unit |-> u] : n \in ScaledNs, u \in Units})
 WriteCases == ndJsonSerialize(CaseFile,
-    [i \in 1..(Len(StrCases) + Len(ValCases)) |->
+    [i \in 1..(Len(StrCases) + Len(ValCases) + Len(ScaledCases)) |->
         IF i <= Len(StrCases) THEN [id |-> i, s |-> StrCases[i], unit |-> IF StrCases[i] # <<>> THEN StrCases[i][Len(StrCases[i])] ELSE ""]
-        ELSE [id |-> i, n |-> ValCases[i - Len(StrCases)]]])
+        ELSE IF i <= Len(StrCases) + Len(ValCases) THEN [id |-> i, n |-> ValCases[i - Len(StrCases)]]
+        ELSE [id |-> i, sn |-> ScaledCases[i - Len(StrCases) - Len(ValCases)].n, sunit |-> ScaledCases[i - Len(StrCases) - Len(ValCases)].unit]])
 
 Results == ndJsonDeserialize(ResultFile)
 \* string cases: accepted exactly when well-formed (and it fits), and then worth digits * unit
@@ -46,6 +50,8 @@ BadStr == {i \in 1..Len(Results) : "s" \in DOMAIN Results[i] /\
 \* value cases: the written form reads back to the same count
 BadVal == {i \in 1..Len(Results) : "n" \in DOMAIN Results[i] /\
               LET r == Results[i] IN ~(r.res = "ok" /\ r.val = r.n)}
+          \cup {i \in 1..Len(Results) : "sn" \in DOMAIN Results[i] /\
+              LET r == Results[i] IN ~(r.res = "ok" /\ r.q = r.sn /\ r.rem = 0)}
 FirstN(S, n) == {i \in S : Cardinality({j \in S : j < i}) < n}
 Judge == PrintT(<<"SIZE-RESULT", Len(Results), Cardinality(BadStr), Cardinality(BadVal),
                   {Results[i] : i \in FirstN(BadStr, 8)}, {Results[i] : i \in FirstN(BadVal, 8)}>>)
